@@ -92,3 +92,31 @@ def unsupported_profile(vc):
     f, p = frame_obj(vc, True)
     out = vc.call(ACS, f, Real('f_start'), Real('drift'), Real('level'), Real('width'), f_profile_type='triangle')
     vc.ensure('C13/add_constant_signal/exc/ValueError-iff-unknown-profile', And(not out.ok, out.exc == 'ValueError'))
+
+
+@contract('C13', 'unit_drift_rate_is_positive_however_the_frame_was_built', functions=[FRAME + '.__init__'])
+def unit_drift_rate_positive(vc):
+    """The sub-step count max(1, ceil(|drift| / unit_drift_rate)) presupposes unit_drift_rate = df/dt > 0 with df the (positive) channel width:
+    true for frames built from sizes with a resolution of either sign (descending bands are often described by a negative step) and for
+    frames loaded from a file whose foff is negative."""
+    from . import c03 as C3
+    route = ('sizes-df-either-sign', 'loaded-foff-either-sign')[vc.choose(2, 'route')]
+    cls = classref(vc, FRAME)
+    n, T = Int('fchans'), Int('tchans')
+    df, dt = Real('df_signed'), Real('dt')
+    vc.assume(And(n >= 1, T >= 1, Not(eq(df, 0)), dt > 0))
+    if route.startswith('sizes'):
+        out = vc.run(lambda: vc.interp.call(cls, [], dict(fchans=n, tchans=T, df=df, dt=dt, fch1=Real('fch1'), ascending=bool(vc.choose(2, 'ascending')), seed=Int('seed'), t_start=Real('t0'))))
+        want = abs(df) / dt
+    else:
+        w = C3.waterfall_record(vc, 'w', T, n, hdr={'nchans': n, 'fch1': Real('fch1_mhz'), 'foff': df, 'tsamp': dt, 'tstart': Real('mjd'), 'source_name': 'S'})
+        w.fields['container'].fields['selection_shape'] = (T, 1, n)
+        w.fields['data'] = symbolic_array('wd', (T, 1, n))
+        out = vc.run(lambda: vc.interp.call(cls, [], dict(waterfall=w)))
+        want = abs(df) * 10 ** 6 / dt
+    vc.cover('reachable')
+    vc.ensure(f'C13/Frame.__init__/{route}/exc/none', out.ok)
+    if not out.ok:
+        return
+    F = out.value.fields
+    vc.ensure(f'C13/Frame.__init__/{route}/post/unit_drift_rate=|df|/dt>0', And(eq(F['unit_drift_rate'], want), F['unit_drift_rate'] > 0, F['df'] > 0))
